@@ -149,7 +149,24 @@ class StmtGen:
             k = rnd.random()
             if k < 0.4 and inloop:
                 return J.Out(J.Call(J.Getattr(N("loop"), "changed"), [self.atom(True) for _ in range(rnd.choice([1, 1, 2]))]))
-            if k < 0.7:
+            if k < 0.52:
+                # dict methods (items/keys/values/get) and the do statement
+                dd = J.Dict([(C("a"), self.atom(inloop)), (C("b<"), self.atom(inloop)), (self.atom(inloop), C(1))][: rnd.choice([2, 3])])
+                v1, v2 = rnd.sample(self.names, 2)
+                which = rnd.random()
+                if which < 0.4:
+                    loop = J.For(J.TTuple([J.TName(v1), J.TName(v2)]), J.Call(J.Getattr(N("dd"), "items")),
+                                 [J.Out(N(v1)), J.Text("="), J.Out(N(v2)), J.Text(";")])
+                elif which < 0.6:
+                    loop = J.Out(J.Filter(J.Call(J.Getattr(N("dd"), rnd.choice(["keys", "values"]))), rnd.choice(["list", "first", "length"])))
+                elif which < 0.8:
+                    loop = J.Out(J.Call(J.Getattr(N("dd"), "get"), [rnd.choice([C("a"), C("zz"), self.atom(inloop)])] +
+                                        ([self.atom(inloop)] if rnd.random() < 0.5 else [])))
+                else:
+                    loop = J.If([C(True)], [[J.Set("cy", J.Call(N("cycler"), [C("p"), C("q<")])),
+                                             J.Do(J.Call(J.Getattr(N("cy"), "next"))), J.Out(J.Getattr(N("cy"), "current"))]])
+                return J.If([C(True)], [[J.Set("dd", dd), loop]])
+            if k < 0.75:
                 return J.If([C(True)], [[J.Set("cy", J.Call(N("cycler"), [C(1), C("o<"), N(self.name())][: rnd.choice([2, 3])])),
                                          J.For(J.TName(self.name()), J.List([C(1), C(2), C(3)]),
                                                [J.Out(J.Getattr(N("cy"), "current")), J.Out(J.Call(J.Getattr(N("cy"), "next"))), J.Text(",")]),
